@@ -172,6 +172,7 @@ async fn run(l: &mut Loose<8>, ops: &[Op], pred_gt: &[bool]) -> Out {
         out.violation = Some(("init-failed-on-empty-dir".into(), e));
         return out;
     }
+    let mut restarts = 0u64;
     for (i, op) in ops.iter().enumerate() {
         let s = l.storage.as_ref().unwrap();
         let has_active = s.has_active_blob().await;
@@ -197,6 +198,11 @@ async fn run(l: &mut Loose<8>, ops: &[Op], pred_gt: &[bool]) -> Out {
                     out.inconclusive = Some(format!("close() did not return within 8 s at step {} ({}) while I/O was still happening", i, op.short()));
                     return out;
                 }
+            }
+            if l.cfg.bloom_flip {
+                // the directory is re-opened under another bloom configuration (hasher count, bit count, none)
+                restarts += 1;
+                l.cfg.bloom = crate::drive::next_bloom_cfg(l.cfg.bloom, restarts);
             }
             if let Err(e) = l.open(*lazy).await {
                 out.violation = Some(("init-failed-after-clean-close".into(), format!("step {}: {}", i, e)));
@@ -313,7 +319,7 @@ pub fn shard(ctx: &Ctx) -> Shard {
         }
         sh.add(if cfg.max_records.is_some() { "probes_record_limit" } else { "probes_size_limit" }, 1);
         let ops = gen_history(&mut rng, &p);
-        let pred_gt: Vec<bool> = ops.iter().map(|_| rng.chance(1, 3)).collect();
+        let mut pred_gt: Vec<bool> = ops.iter().map(|_| rng.chance(1, 3)).collect();
         let dir = new_dir("c13-");
         let mut l: Loose<8> = Loose::new(dir.clone(), cfg.clone());
         if n % 8 == 7 {
@@ -343,6 +349,20 @@ pub fn shard(ctx: &Ctx) -> Shard {
                 Err(p) => sh.violation(&ctx.known, "C13", ctx.seed, "C13/panic", &p, replay),
             }
             continue;
+        }
+        // a quarter of the histories re-open the directory under another bloom configuration at every restart
+        let mut ops = ops;
+        if n % 4 == 1 {
+            cfg.bloom = 1;
+            cfg.bloom_flip = true;
+            l.cfg = cfg.clone();
+            // at least two restarts, one of them right before the overflow probe
+            let at = rng.below(ops.len() as u64 + 1) as usize;
+            ops.insert(at, Op::Restart { lazy: rng.chance(1, 3), rm_idx: 0 });
+            ops.push(Op::Restart { lazy: false, rm_idx: 0 });
+            pred_gt.insert(at, false);
+            pred_gt.push(false);
+            sh.add("histories_bloom_config_changes_across_restarts", 1);
         }
         // a third of the histories: tiny dirty-byte limit and slow blob syncs (delay failpoint), so that
         // background syncs are running while lifecycle requests ask for the exclusive storage lock
